@@ -183,7 +183,13 @@ def run_case(case):
             job.job_id = 1
             full = GenericCommandExecution.generate_command(job, os.path.join(out, "job-outputs"), None)
             ac = AsyncCliCommand(job, full, out, 7, True, case["hpc_job_id"])
-            ac.run()
+            try:
+                ac.run()
+            except Exception as e:  # noqa: BLE001  a legal command must be launched, not rejected
+                v.append(D.viol(f"C19:launch-raised|{type(e).__name__}", f"command {cmd[cmd.index('probe.sh') + 9:]!r}: launching raised "
+                                f"{type(e).__name__}: {str(e)[:200]}"))
+                res["sample"] = {"tokens": [t for t, _ in case["tokens"]]}
+                return res
             deadline = time.monotonic() + 30
             while not ac.is_complete():
                 if time.monotonic() > deadline:
@@ -219,7 +225,12 @@ def run_case(case):
                               LOCAL_SCRATCH=os.path.join(base, "scratch"))
             os.makedirs(os.environ["LOCAL_SCRATCH"])
             cfg.dump(os.path.join(out, "config.json"))
-            JobRunner(cfg, out, batch_id=3).run_jobs(distributed_submitter=False, num_parallel_processes_per_node=2)
+            try:
+                JobRunner(cfg, out, batch_id=3).run_jobs(distributed_submitter=False, num_parallel_processes_per_node=2)
+            except Exception as e:  # noqa: BLE001
+                v.append(D.viol(f"C19:batch-run-raised|{type(e).__name__}", f"JobRunner.run_jobs raised {type(e).__name__}: {str(e)[:200]}"))
+                res["sample"] = {"tokens": [t for t, _ in case["tokens"]]}
+                return res
             ResultsAggregator.create(out)
             ResultsAggregator.load(out).process_results()
             rows = {r.name: r for r in ResultsAggregator.list_results(out)}
